@@ -26,6 +26,8 @@ EXTRA = {
     'C13': ['acts/src/cache', 'acts/src/scheduler/runtime.rs', 'acts/src/export/executor/process_executor.rs'],
     # "is seen by every later condition, script and message": the script environment is where conditions, templates and scripts read names
     'C07': ['acts/src/env'],
+    # "a value returned or set by a script is stored unchanged": the variable container converts what scripts hand back
+    'C14': ['acts/src/model/vars.rs', 'acts/src/package/transform'],
 }
 
 
